@@ -433,10 +433,10 @@ func genUndColorHard(g *vlib.G) {
 		}
 		return
 	}
-	for mask := uint32(0); mask < 1<<21; mask++ {
+	for k := uint32(0); k < 1<<21; k++ {
 		if g.Stopped() {
 			return
 		}
-		one(7, mask, false)
+		one(7, scramble(k, 21), false)
 	}
 }
